@@ -11,28 +11,6 @@ loop of a call — each with the *specific* text that follows.
 namespace Ructe.Src
 open Nom Ructe.C15 Ructe.Nodes
 
-/-! ## one round of each loop -/
-
-theorem manyTillGo_done {α β} {f : Parser α} {g : Parser β} {inp r : Bytes} {o : β} (h : g inp = .ok r o)
-    (k : Nat) (acc : List α) : manyTillGo f g (k + 1) inp acc = .ok r (acc.reverse, o) := by
-  simp [manyTillGo, h]
-
-theorem manyTillGo_step {α β} {f : Parser α} {g : Parser β} {inp r : Bytes} {v : α} {e : Errs}
-    (hg : g inp = .err e) (hf : f inp = .ok r v) (hl : r.length < inp.length) (k : Nat) (acc : List α) :
-    manyTillGo f g (k + 1) inp acc = manyTillGo f g k r (v :: acc) := by
-  have : r.length ≠ inp.length := by omega
-  simp [manyTillGo, hg, hf, this]
-
-theorem sepLoop_done {α β} {sep : Parser β} {p : Parser α} {inp : Bytes} {e : Errs} (h : sep inp = .err e)
-    (k : Nat) (acc : List α) : sepLoop sep p (k + 1) inp acc = .ok inp acc.reverse := by
-  simp [sepLoop, h]
-
-theorem sepLoop_step {α β} {sep : Parser β} {p : Parser α} {inp r1 r2 : Bytes} {u : β} {v : α}
-    (hs : sep inp = .ok r1 u) (hp : p r1 = .ok r2 v) (hl : r2.length < inp.length) (k : Nat) (acc : List α) :
-    sepLoop sep p (k + 1) inp acc = sepLoop sep p k r2 (v :: acc) := by
-  have : r2.length ≠ inp.length := by omega
-  simp [sepLoop, hs, hp, this]
-
 /-! ## heads of printed nodes -/
 
 /-- the print of a well-formed node starts with a byte that is neither `{` nor `}` -/
@@ -205,31 +183,41 @@ theorem arm_step' (n : Nat) (L1 pat L2 L3 body patv : Bytes) (nodes : List TExpr
     exact context_ok _ (seq_of (delimited_of hs1 (hpat _ htail) hs2)
       (preceded_of (terminated_of (CallL.tagS_arrow _) hs3) hbody))
 
-/-- a plain name as a match pattern or scrutinee -/
-theorem name_patTail (n : Nat) (hn : 3 ≤ n) (b : UInt8) (cs : Bytes) (hok : NameOk b cs) :
-    ∀ tail, CallL.PatTail tail → expression n (b :: cs ++ tail) = .ok tail (b :: cs) := by
+/-- a documented expression as a match pattern or scrutinee -/
+theorem dexpr_patTail (n : Nat) (e : C05.DExpr) (hw : e.wf = true) (hn : e.fuel ≤ n) :
+    ∀ tail, CallL.PatTail tail → expression n (e.print ++ tail) = .ok tail e.print := by
   rintro tail (⟨c, r, rfl, hc⟩ | ⟨r, rfl⟩ | ⟨r, rfl⟩)
-  · exact name_expr_ok n hn b cs hok c r (exprEndB_layoutHead c (.inl hc))
-  · exact name_expr_ok n hn b cs hok 64 _ (by decide)
-  · exact name_expr_ok n hn b cs hok 61 _ (by decide)
+  · exact dexpr_end e hw n hn c r (exprEndB_layoutHead c (.inl hc))
+  · exact dexpr_end e hw n hn 64 _ (by decide)
+  · exact dexpr_end e hw n hn 61 _ (by decide)
 
-theorem name_notClose (b : UInt8) (cs : Bytes) (hb : C05.isNameStart b = true) : ∀ r, b :: cs ≠ 125 :: r := by
-  intro r e
-  obtain ⟨rfl, _⟩ := List.cons.inj e
+theorem dexpr_notClose (e : C05.DExpr) (hw : e.wf = true) : ∀ r, e.print ≠ 125 :: r := by
+  intro r h
+  obtain ⟨b, x, hbx, hb⟩ := dexpr_head e hw
+  rw [hbx] at h
+  obtain ⟨rfl, _⟩ := List.cons.inj h
+  revert hb; decide
+
+theorem dexpr_notOpen (e : C05.DExpr) (hw : e.wf = true) : ∀ r, e.print ≠ 123 :: r := by
+  intro r h
+  obtain ⟨b, x, hbx, hb⟩ := dexpr_head e hw
+  rw [hbx] at h
+  obtain ⟨rfl, _⟩ := List.cons.inj h
   revert hb; decide
 
 /-- one arm of the source tree -/
-theorem arm_name (n : Nat) (hn : 3 ≤ n) (l₁ l₂ l₃ : Layout) (h₁ : LayoutOk l₁) (h₂ : LayoutOk l₂) (h₃ : LayoutOk l₃)
-    (pb : UInt8) (pcs : Bytes) (hok : NameOk pb pcs) (body : List Node) (R : Bytes)
+theorem arm_dexpr (n : Nat) (l₁ l₂ l₃ : Layout) (h₁ : LayoutOk l₁) (h₂ : LayoutOk l₂) (h₃ : LayoutOk l₃)
+    (pat : C05.DExpr) (hw : pat.wf = true) (hn : pat.fuel ≤ n) (body : List Node) (R : Bytes)
     (hbody : templateBlock n (123 :: (printNodes body ++ 125 :: R)) = .ok R (astNodes body)) :
-    (∃ e, CallL.armEnd (printArm (.mk l₁ pb pcs l₂ l₃ body) ++ R) = .err e) ∧
-    CallL.armP n (printArm (.mk l₁ pb pcs l₂ l₃ body) ++ R) = .ok R (astArm (.mk l₁ pb pcs l₂ l₃ body)) := by
-  have e : printArm (.mk l₁ pb pcs l₂ l₃ body) ++ R = printLayout l₁ ++ (pb :: pcs ++ (printLayout l₂ ++ 61 :: 62 ::
+    (∃ e, CallL.armEnd (printArm (.mk l₁ pat l₂ l₃ body) ++ R) = .err e) ∧
+    CallL.armP n (printArm (.mk l₁ pat l₂ l₃ body) ++ R) = .ok R (astArm (.mk l₁ pat l₂ l₃ body)) := by
+  have e : printArm (.mk l₁ pat l₂ l₃ body) ++ R = printLayout l₁ ++ (pat.print ++ (printLayout l₂ ++ 61 :: 62 ::
       (printLayout l₃ ++ 123 :: (printNodes body ++ 125 :: R)))) := by
     simp [printArm]
   rw [e, astArm]
   exact arm_step' n _ _ _ _ _ _ _ R (lay_of _ h₁) (lay_of _ h₂) (lay_of _ h₃)
-    (name_stopsLayout pb pcs hok.1) (name_notClose pb pcs hok.1) (by simp) (name_patTail n hn pb pcs hok) hbody
+    (dexpr_fragHead pat hw).stops0 (dexpr_notClose pat hw) (dexpr_fragHead pat hw).ne_nil
+    (dexpr_patTail n pat hw hn) hbody
 
 theorem printArm_length_pos (a : Arm) : 0 < (printArm a).length := by
   cases a; simp [printArm]; omega
@@ -268,34 +256,34 @@ theorem manyTillGo_arms (n : Nat) (F rest : Bytes) (hfin : CallL.armEnd F = .ok 
       simp
 
 /-- **`@match`** from the arm loop -/
-theorem match_node (n : Nat) (hn : 3 ≤ n) (l₀ l₁ lEnd : Layout) (h₀ : LayoutOk l₀) (h₁ : LayoutOk l₁) (hEnd : LayoutOk lEnd)
-    (hne : l₁ ≠ []) (eb : UInt8) (ecs : Bytes) (hok : NameOk eb ecs) (arms : List Arm) (rest : Bytes)
+theorem match_node (n : Nat) (l₀ l₁ lEnd : Layout) (h₀ : LayoutOk l₀) (h₁ : LayoutOk l₁) (hEnd : LayoutOk lEnd)
+    (hne : l₁ ≠ []) (e : C05.DExpr) (hw : e.wf = true) (hn : e.fuel ≤ n) (arms : List Arm) (rest : Bytes)
     (harms : ArmsParse n arms (printLayout lEnd ++ 125 :: rest)) :
-    templateExpression (n + 1) (printNode (.matchOn l₀ eb ecs l₁ arms lEnd) ++ rest)
-      = .ok rest (.matchBlock (eb :: ecs) (astArms arms)) := by
+    templateExpression (n + 1) (printNode (.matchOn l₀ e l₁ arms lEnd) ++ rest)
+      = .ok rest (.matchBlock e.print (astArms arms)) := by
   have hloop : manyTill (CallL.armP n) CallL.armEnd (printArms arms ++ (printLayout lEnd ++ 125 :: rest))
       = .ok rest (astArms arms, 125) := by
     have := manyTillGo_arms n _ rest (CallL.armEnd_ok _ _ (lay_of lEnd hEnd)) arms harms _ [] (Nat.lt_succ_self _)
     simpa [manyTill] using this
-  have hhead := CallL.match_head n (printLayout l₀) (eb :: ecs) (printLayout l₁) (eb :: ecs)
+  have hhead := CallL.match_head n (printLayout l₀) e.print (printLayout l₁) e.print
     (printArms arms ++ (printLayout lEnd ++ 125 :: rest))
-    (lay_of l₀ h₀) (lay_of l₁ h₁) (printLayout_ne_nil l₁ h₁ hne) (name_stopsLayout eb ecs hok.1)
-    (fun tail ht => name_patTail n hn eb ecs hok tail (by
+    (lay_of l₀ h₀) (lay_of l₁ h₁) (printLayout_ne_nil l₁ h₁ hne) (dexpr_fragHead e hw).stops0
+    (fun tail ht => dexpr_patTail n e hw hn tail (by
       rcases ht with h | h
       · exact .inl h
       · exact .inr (.inl h)))
-  have e : printNode (.matchOn l₀ eb ecs l₁ arms lEnd) ++ rest =
-      64 :: 109 :: 97 :: 116 :: 99 :: 104 :: 32 :: (printLayout l₀ ++ (eb :: ecs ++ (printLayout l₁ ++ 123 ::
+  have e1 : printNode (.matchOn l₀ e l₁ arms lEnd) ++ rest =
+      64 :: 109 :: 97 :: 116 :: 99 :: 104 :: 32 :: (printLayout l₀ ++ (e.print ++ (printLayout l₁ ++ 123 ::
         (printArms arms ++ (printLayout lEnd ++ 125 :: rest))))) := by
     simp [printNode]
-  rw [e]
-  exact CallL.templateExpression_match n _ _ (eb :: ecs) (astArms arms) hhead _ 125 hloop
+  rw [e1]
+  exact CallL.templateExpression_match n _ _ e.print (astArms arms) hhead _ 125 hloop
 
 /-! ## `@:name(args)`: the argument loop -/
 
 /-- an argument without the layout in front of it -/
 def Arg.core : Arg → Bytes
-  | .rust _ b cs => b :: cs
+  | .rust _ e => e.print
   | .block _ body after => 123 :: (printNodes body ++ 125 :: printLayout after)
 
 theorem printArg_eq (a : Arg) : printArg a = printLayout a.pre ++ a.core := by
@@ -305,19 +293,15 @@ theorem printArg_eq (a : Arg) : printArg a = printLayout a.pre ++ a.core := by
 def ArgP (n : Nat) (a : Arg) (X : Bytes) : Prop :=
   templateArgument (n + 1) (a.core ++ X) = .ok X (astArg a) ∧ CallL.Stops (a.core ++ X)
 
-/-- a Rust name as argument -/
-theorem argP_rust (n : Nat) (hn : 3 ≤ n) (pre : Layout) (b : UInt8) (cs : Bytes) (hok : NameOk b cs) (X : Bytes)
-    (hX : CallL.ArgTail X) : ArgP n (.rust pre b cs) X := by
-  have h := CallL.arg_rust n (b :: cs) (b :: cs) (by simp)
-    (fun r e => by
-      obtain ⟨rfl, _⟩ := List.cons.inj e
-      have := hok.1
-      revert this; decide)
-    (name_stopsLayout b cs hok.1)
+/-- a Rust expression as argument -/
+theorem argP_rust (n : Nat) (pre : Layout) (e : C05.DExpr) (hw : e.wf = true) (hn : e.fuel ≤ n) (X : Bytes)
+    (hX : CallL.ArgTail X) : ArgP n (.rust pre e) X := by
+  have h := CallL.arg_rust n e.print e.print (dexpr_fragHead e hw).ne_nil (dexpr_notOpen e hw)
+    (dexpr_fragHead e hw).stops0
     (fun tail ht => by
       rcases ht with ⟨r, rfl⟩ | ⟨r, rfl⟩
-      · exact name_expr_ok n hn b cs hok 44 r (by decide)
-      · exact name_expr_ok n hn b cs hok 41 r (by decide))
+      · exact dexpr_end e hw n hn 44 r (by decide)
+      · exact dexpr_end e hw n hn 41 r (by decide))
   exact ⟨h.parses X hX, h.stops X⟩
 
 /-- a block argument, with the specific text that follows it -/
